@@ -73,7 +73,7 @@ TEXT["C01"] = dict(text="Coq theorems, all variants / tables / packets / clocks:
     technique="Coq proof (case analysis of the matchers against an independent genuineness predicate) + differential run of the real drivers over the full perturbation lattice")
 TEXT["C02"] = dict(text="Coq theorem: every packet whose parsed view is a genuine reply to the probe with TTL t yields the hop (t, responder, right destination flag) — with soundness, the matcher decides exactly `genuine`. "
     "Correspondence: every catalogue form built by independent builders from the emitted probe bytes must be recognised with the expected TTL and responder, for every variant incl. strict/relaxed and ISN/base wrap-around.",
-    note=_DRVNOTE + " PARTIAL: byte-level completeness per catalogue form (codec lemmas) and the engine lift (reply before deadline appears in the result) are checked by correspondence only.",
+    note=_DRVNOTE + " Byte-level completeness is proved for all field values for the main IPv4 forms (ICMP error quoting 28 bytes of the probe the model builder emits, echo reply, direct TCP reply) through the whole receive path, and the engine lift (every reply readable by the deadline for a sent TTL is accepted, any script) is proved for the parallel engine. PARTIAL: IPv6 forms, IP options / extension headers, longer quotes and the serial engine lift are correspondence-only.",
     technique="Coq proof (matcher = genuineness predicate, both directions) + differential run of the real drivers on an independently built device catalogue")
 TEXT["C04"] = dict(text="Coq theorems: destination flag = the protocol's proof-of-arrival predicate on the packet used; a reply from any non-target address is never proof of arrival; a time-exceeded never marks the destination for ICMP/TCP SYN; e2e RTT = destination hop's RTT or 0. "
     "Correspondence: each destination-form reply from the target, from a router and (lattice) from other addresses with identical identifiers, through the real drivers; e2e value through the real RunTraceroute.", note=_DRVNOTE,
@@ -84,7 +84,7 @@ TEXT["C05"] = dict(text="Coq theorems: a hop's RTT = processing instant - send i
     technique="Coq proof (matcher soundness carries the send time; merge rule) + exact virtual-clock timing of the real drivers and engines")
 TEXT["C06"] = dict(text="Coq theorems: TTL/hop-limit byte = probed TTL for every builder; identifiers unique per run at every base incl. wrap-around; IPv4 header, ICMPv4 and all TCP segment checksums verify for all field values; emitted TTLs = first, first+1, ... in every interleaving; pacing / stop-after-destination on the timed models via C08's models. "
     "Correspondence: byte-for-byte equality of the real builders' output with the model over all 255 TTLs x variants x wrap-around bases, an independent well-formedness + receiver-side checksum check on the emitted bytes, and the send log of full engine runs.",
-    note=_DRVNOTE + " PARTIAL: UDP and ICMPv6 checksum validity is checked on the emitted bytes, not yet proved. Observation (not a finding): gopacket emits a computed UDP checksum of 0 as 0, which IPv6 forbids (1 in 65535 probes).",
+    note=_DRVNOTE + " Checksum validity is proved for every builder (IPv4 header, ICMPv4/ICMPv6 echo, UDP, TCP SYN/SACK). Observation (not a finding): gopacket emits a computed UDP checksum of 0 as 0, which IPv6 forbids (1 in 65535 probes).",
     technique="Coq proof (one's-complement arithmetic, modular injectivity, transition-system invariant) + byte-exact differential run of the real packet builders")
 TEXT["C09"] = dict(text="Coq theorems, every non-empty byte string / variant / state: the outcome is hop, skip or SACK's not-supported, never a run-aborting error; not-supported iff the packet is a non-SYN/FIN/RST segment from the target on the probed connection without SACK blocks; results depend on accepted replies only. "
     "Correspondence: every truncation length and byte flip of every genuine reply, random bytes, own probes, pre-send traffic through the real drivers: never a panic or fatal error, outcome = model.",
